@@ -90,6 +90,14 @@ func keyWithCoord(shape, coord string) *sm2.PrivateKey {
 	return nil
 }
 
+// the key n-d: its public point is (x, p-y)
+func negKey(k *sm2.PrivateKey) *sm2.PrivateKey {
+	c := sm2.P256Sm2()
+	d := new(big.Int).Sub(c.Params().N, k.D)
+	x, y := c.ScalarBaseMult(d.Bytes())
+	return &sm2.PrivateKey{PublicKey: sm2.PublicKey{Curve: c, X: x, Y: y}, D: d}
+}
+
 func pwdOf(class string) []byte {
 	switch class {
 	case "empty":
@@ -134,6 +142,9 @@ func runC14(c map[string]string, dir string, thorough bool) map[string]interface
 						probs = append(probs, "no key found with shape")
 						continue
 					}
+				}
+				if c["par"] != "" && (k.Y.Bit(0) == 1) != (c["par"] == "odd") {
+					k = negKey(k) // same x, the other parity of y
 				}
 				switch c["ser"] {
 				case "privhex":
@@ -257,6 +268,8 @@ func runC14(c map[string]string, dir string, thorough bool) map[string]interface
 			switch c["shape"] {
 			case "otherkey":
 				sk = keyPem(other)
+			case "negated":
+				sk = keyPem(negKey(sign.PrivateKey.(*sm2.PrivateKey)))
 			case "swapped":
 				sk, ek = ek, sk
 			}
@@ -274,9 +287,13 @@ func runC14(c map[string]string, dir string, thorough bool) map[string]interface
 				_, lerr = gmtls.GMX509KeyPairsSingle(scert, sk)
 			case "GMX509KeyPairs":
 				_, lerr = gmtls.GMX509KeyPairs(scert, sk, ecert, ek)
-				if c["shape"] == "otherkey" && lerr != nil {
+				if (c["shape"] == "otherkey" || c["shape"] == "negated") && lerr != nil {
 					// also: right signing key, wrong encryption key
-					_, e2 := gmtls.GMX509KeyPairs(scert, keyPem(sign.PrivateKey), ecert, keyPem(other))
+					wrong := other
+					if c["shape"] == "negated" {
+						wrong = negKey(enc.PrivateKey.(*sm2.PrivateKey))
+					}
+					_, e2 := gmtls.GMX509KeyPairs(scert, keyPem(sign.PrivateKey), ecert, keyPem(wrong))
 					if e2 == nil {
 						lerr = nil
 						got["note"] = "accepted a wrong encryption key"
